@@ -107,13 +107,18 @@ static std::string diffdesc(const std::vector<uint8_t> &got, const std::vector<u
 	return fmt("length %zu (model %zu), first difference at byte %zu; reads %s, model %s", got.size(), want.size(), i, hexs(got).c_str(), hexs(want).c_str());
 }
 
-// ------------------------------------------------------------------ pre-screening in a forked child
+// ------------------------------------------------------------------ pre-screening in a separate process
 // An out-of-bounds write performed by the real code (ASan reports it and lets it happen) corrupts the heap
-// of the exploring process and makes unrelated later cases die.  Therefore the first execution of every
-// (operation, structural class of the buffers it touches) pair runs in a forked child; only when the child
-// saw no violation is the step executed in the exploring process itself.  Violating steps are never
-// executed in the exploring process (each one is observed in its own child).  Replays run directly.
-static bool g_child = false;
+// of the exploring process and makes unrelated later cases die.  Therefore a step whose (operation,
+// structural class of the buffers it touches) pair has not yet been seen clean is first executed in a
+// throw-away process: a small "zygote" forked from the worker before its heap grows forks one grandchild
+// per request, the grandchild rebuilds the state from the history and runs the step.  Only when it saw
+// no violation is the step executed in the exploring process itself; a violating step is reported from the
+// grandchild's verdict and never executed here.  Replays run the case directly.
+#include <unistd.h>
+#include <sys/wait.h>
+#include <sys/time.h>
+static bool g_child = false, g_expired = false;
 static std::string g_child_out;
 static std::set<std::string> g_clean;
 static void report(Run &r, const std::string &sig, const std::string &detail)
@@ -121,12 +126,61 @@ static void report(Run &r, const std::string &sig, const std::string &detail)
 	if (g_child) { if (g_child_out.empty()) g_child_out = sig + "\t" + detail; }
 	else r.violation(sig, detail);
 }
-// returns true when the step may be executed in this process; false when the child observed a violation (already reported)
-template <class F> static bool screened(Run &r, const std::string &key, const std::string &hint, const std::string &desc, F step)
+static std::string run_case(char fam, const Vec &v);     // defined behind the families
+static int z_req = -1, z_resp = -1; static pid_t z_owner = 0;
+static bool rd_all(int fd, void *p, size_t n) { char *c = (char *) p; while (n) { ssize_t k = read(fd, c, n); if (k < 0 && errno == EINTR) continue; if (k <= 0) return false; c += k; n -= k; } return true; }
+static bool wr_all(int fd, const void *p, size_t n) { const char *c = (const char *) p; while (n) { ssize_t k = write(fd, c, n); if (k < 0 && errno == EINTR) continue; if (k <= 0) return false; c += k; n -= k; } return true; }
+static void wr_msg(int fd, std::string s) { if (s.size() > 3000) s.resize(3000); uint32_t n = s.size(); std::string m((char *) &n, 4); m += s; wr_all(fd, m.data(), m.size()); }
+static void zygote_start()
 {
-	if (r.replaying || g_clean.count(key)) return true;
-	std::string res = in_child([&]() -> std::string { g_child = true; g_child_out.clear(); step(); return g_child_out.empty() ? std::string("OK") : g_child_out; });
+	if (z_owner == getpid()) return;
+	int a[2], b[2];
+	if (pipe(a) < 0 || pipe(b) < 0) return;
+	fflush(stdout); fflush(stderr);
+	pid_t pid = fork();
+	if (pid < 0) return;
+	if (pid == 0) {
+		close(a[1]); close(b[0]);
+		int sigs[] = { SIGSEGV, SIGBUS, SIGFPE, SIGILL, SIGABRT, SIGALRM, SIGPIPE };
+		for (int sg : sigs) signal(sg, SIG_DFL);
+		g_installed = false;
+		struct itimerval it; memset(&it, 0, sizeof it); setitimer(ITIMER_REAL, &it, 0);
+		for (;;) {
+			uint32_t hd[2];
+			if (!rd_all(a[0], hd, sizeof hd)) _exit(0);
+			Vec v(hd[1]);
+			if (hd[1] && !rd_all(a[0], v.data(), hd[1] * sizeof(uint64_t))) _exit(0);
+			pid_t c = fork();
+			if (c == 0) {
+				alarm(20);
+				std::string res = run_case((char) hd[0], v);
+				wr_msg(b[1], res);
+				_exit(0);
+			}
+			int st = 0;
+			while (waitpid(c, &st, 0) < 0 && errno == EINTR) {}
+			if (c < 0) wr_msg(b[1], "\x01" "FORK");
+			else if (WIFSIGNALED(st)) wr_msg(b[1], WTERMSIG(st) == SIGALRM ? std::string("\x01HANG") : "\x01SIG" + std::to_string(WTERMSIG(st)));
+			else if (WEXITSTATUS(st) != 0) wr_msg(b[1], "\x01" "EXIT" + std::to_string(WEXITSTATUS(st)));
+		}
+	}
+	close(a[0]); close(b[1]);
+	if (z_req >= 0) { close(z_req); close(z_resp); }
+	z_req = a[1]; z_resp = b[0]; z_owner = getpid();
+}
+// returns true when the step may be executed in this process; false when the throw-away process observed a violation (reported here)
+static bool screened(Run &r, char fam, const std::string &key, const std::string &hint, const std::string &desc)
+{
+	if (g_child || r.replaying || g_clean.count(key)) return true;
+	if (z_owner != getpid()) return true;       // no zygote: run directly
+	uint32_t hd[2] = { (uint32_t) fam, (uint32_t) r.cur.size() };
+	std::string m((char *) hd, sizeof hd); m.append((const char *) r.cur.data(), r.cur.size() * sizeof(uint64_t));
+	uint32_t n = 0; std::string res;
+	if (!wr_all(z_req, m.data(), m.size()) || !rd_all(z_resp, &n, 4)) { z_owner = 0; return true; }
+	res.resize(n);
+	if (n && !rd_all(z_resp, &res[0], n)) { z_owner = 0; return true; }
 	r.beat();
+	if (r.expired()) g_expired = true;
 	if (res == "OK") { g_clean.insert(key); return true; }
 	if (!res.empty() && res[0] == '\x01') {
 		std::string why = res.substr(1);
@@ -200,14 +254,14 @@ static void build_tables()
 
 template <int API>
 struct RawSys {
-	Run &r; H h[3]; Mdl m[3]; bool dead; int fault;
+	Run &r; H h[3]; Mdl m[3]; bool dead; int fault; size_t nap;
 	void V(const std::string &sig, const std::string &detail) { report(r, sig, detail); }
 	mpt::array *arr(int i) { return reinterpret_cast<mpt::array *>(&h[i]); }
 	mpt::slice *sl() { return reinterpret_cast<mpt::slice *>(&h[2]); }
 
-	RawSys(Run &run, uint64_t init) : r(run), dead(false), fault(0)
+	RawSys(Run &run, uint64_t init) : r(run), dead(false), fault(0), nap(0)
 	{
-		warm(); build_tables();
+		warm(); build_tables(); if (!g_child && !r.replaying) zygote_start();
 		memset(h, 0, sizeof h);
 		for (int i = 0; i < 3; ++i) m[i].tr = 0;
 		ledger_reset(); asan_error();
@@ -285,7 +339,7 @@ struct RawSys {
 		if (!b) return "null";
 		uint32_t f = b->get_flags();
 		bool sh = f & mpt::BufferShared, im = f & mpt::BufferImmutable;
-		return sh && im ? "shared+immutable" : (sh ? "shared" : (im ? "immutable" : "sole"));
+		return sh ? "shared" : (im ? "immutable" : "sole");
 	}
 	// compare every handle with its model; w = modified handle (-1: none)
 	bool check(const std::string &base, const std::string &desc, int w, bool refused, bool must_refuse = false)
@@ -323,7 +377,7 @@ struct RawSys {
 static std::string argcls(size_t pos, size_t len, size_t used, size_t cap, bool overwrite)
 {
 	size_t total = overwrite ? pos + len : (pos > used ? pos : used) + len;
-	return std::string(pos < used ? "pos<used" : (pos == used ? "pos=used" : "pos>used")) + "," + (!len ? "len=0" : (total <= cap ? "fits" : "exceeds-capacity"));
+	return std::string(!len ? "len=0" : (total <= cap ? "fits" : "exceeds-capacity")) + (pos > used ? ",behind-gap" : "");
 }
 
 template <int API> std::string RawSys<API>::opname(int op)
@@ -384,7 +438,10 @@ template <int API> bool RawSys<API>::apply(int op)
 	else if (in.k == C_CLONE || in.k == X_ASSIGN || in.k == X_ADD || in.k == X_SETREF) key += bufcanon(h[0].b) + bufcanon(h[1].b) + bufcanon(h[2].b) + (h[0].b == h[1].b ? "=" : "") + (h[0].b == h[2].b ? "~" : "");
 	else if (in.k == S_ASSIGN || in.k == S_CLEAR || in.k == XS_FROM || in.k == XS_CLEAR || in.k == X_FROMSLICE) key += bufcanon(h[0].b) + bufcanon(h[1].b) + bufcanon(h[2].b) + fmt("o%s n%s", cls5(h[2].off, 3), cls5(h[2].len, 3)) + (h[0].b == h[2].b ? "~" : "");
 	else key += bufcanon(h[0].b);
-	if (!screened(r, key, hint, name + " in state " + canon(), [&] { API == 0 ? apply_c(in, name) : apply_x(in, name); })) return false;
+	bool frontier = r.cur.size() == nap + 2;
+	++nap;
+	if (frontier && g_expired) return false;     // deadline / violation cap reached: drain the queue without executing
+	if (frontier && !screened(r, API ? 'x' : 'c', key, hint, name + " in state " + canon())) return false;
 	++r.executions;
 	return API == 0 ? apply_c(in, name) : apply_x(in, name);
 }
@@ -783,6 +840,24 @@ template <int API> bool RawSys<API>::apply_x(const Inst &in, std::string &name)
 
 //@@FAMILIES@@
 
+// ------------------------------------------------------------------ one case in a throw-away process (see screened())
+template <class Sys> static std::string run_case_t(const Vec &v)
+{
+	Run r; r.cur = v;
+	g_child = true; g_child_out.clear();
+	Sys s(r, v[0]);
+	for (size_t i = 1; i < v.size() && g_child_out.empty(); ++i) if (!s.apply((int) v[i])) break;
+	return g_child_out.empty() ? std::string("OK") : g_child_out;
+}
+static std::string run_case(char fam, const Vec &v)
+{
+	switch (fam) {
+	case 'c': return run_case_t<RawSys<0> >(v);
+	case 'x': return run_case_t<RawSys<1> >(v);
+	}
+	return "OK";
+}
+
 // ------------------------------------------------------------------ jobs
 static int depth_of(Tier t, char fam)
 {
@@ -808,7 +883,7 @@ static void required(Run &r, char fam)
 }
 void mc_explore(Run &r, const std::string &job)
 {
-	Stats st; g_stats = &st;
+	Stats st; g_stats = &st; g_expired = false;
 	char fam = job[0]; uint64_t init = strtoull(job.c_str() + 2, 0, 10);
 	required(r, fam);
 	std::vector<uint64_t> inits(1, init);
